@@ -267,6 +267,32 @@ func init() {
 			fr.m.call(fr, a[0], []value{mkInt(64, 0)})
 			return nil
 		},
+		"vNote": func(fr *frame, a []value) value {
+			// vNote(c, id): like vAssert but a failure is only recorded (evidence), never a violation
+			m := fr.m
+			id := strArg(a[1])
+			c := m.simplify(a[0].(*Term))
+			verdict := "held"
+			if c.IsConst() {
+				if !c.Bool() {
+					verdict = "FAILED"
+				}
+			} else if m.cursor >= len(m.prefix) {
+				if r, _ := m.check(m.ctx.Not(c), false); r != "unsat" {
+					verdict = "FAILED"
+					if r != "sat" {
+						verdict = "undecided"
+					}
+				}
+			} else {
+				return nil
+			}
+			m.res.Leads = append(m.res.Leads, "note:"+id+"="+verdict)
+			return nil
+		},
+		"vSameState": func(fr *frame, a []value) value {
+			return fr.m.deepEqual(a[0], a[1], map[[2]*value]bool{})
+		},
 		"vObserve": func(fr *frame, a []value) value {
 			fr.m.res.Leads = append(fr.m.res.Leads, strArg(a[0])+"="+describe(a[1]))
 			return nil
@@ -342,14 +368,11 @@ func builderGet(cell *value) Str {
 
 func builderAppend(fr *frame, cell *value, add Str) {
 	cur := builderGet(cell)
-	r := make([]*Term, 0, len(cur.R)+len(add.R))
-	r = append(r, cur.R...)
-	r = append(r, add.R...)
 	fr.m.noteWrite(fr, cell)
 	if cur.Opaque || add.Opaque {
 		*cell = Str{Opaque: true, OTag: cur.repr() + "+" + add.repr()}
 	} else {
-		*cell = Str{R: r}
+		*cell = fr.m.joinStr(cur, add)
 	}
 }
 
@@ -370,10 +393,12 @@ func sumBuilderWriteString(fr *frame, a []value) value {
 func sumBuilderWriteByte(fr *frame, a []value) value {
 	cell := builderCell(fr, a[0])
 	b := a[1].(*Term)
-	if !b.IsConst() || b.U >= 0x80 {
-		panic(unsupported("Builder.WriteByte with non-ASCII or symbolic byte"))
+	cur := builderGet(cell)
+	if cur.Opaque {
+		panic(unsupported("Builder.WriteByte after opaque text"))
 	}
-	builderAppend(fr, cell, Str{R: []*Term{mkBV(32, b.U)}})
+	fr.m.noteWrite(fr, cell)
+	*cell = fr.m.appendByte(cur, b)
 	return iface{}
 }
 
@@ -933,4 +958,108 @@ func sumContainsAny(fr *frame, a []value) value {
 		}
 	}
 	return res
+}
+
+
+// deepEqual: structural equality of two run-time values (pointers are followed,
+// like reflect.DeepEqual); the result is a Bool term.
+func (m *Machine) deepEqual(x, y value, seen map[[2]*value]bool) *Term {
+	c := m.ctx
+	switch x := x.(type) {
+	case *Term:
+		yt, ok := y.(*Term)
+		if !ok || yt.S != x.S {
+			return falseT
+		}
+		if x.S.K == KFP {
+			return c.Or(c.Eq(x, yt), c.And(c.FIsNaN(x), c.FIsNaN(yt)))
+		}
+		return c.Eq(x, yt)
+	case Str:
+		ys, ok := y.(Str)
+		if !ok {
+			return falseT
+		}
+		return m.strEq(x, ys)
+	case *value:
+		yp, ok := y.(*value)
+		if !ok {
+			return falseT
+		}
+		if x == yp {
+			return trueT
+		}
+		if x == nil || yp == nil {
+			return falseT
+		}
+		k := [2]*value{x, yp}
+		if seen[k] {
+			return trueT
+		}
+		seen[k] = true
+		return m.deepEqual(*x, *yp, seen)
+	case structure:
+		ys, ok := y.(structure)
+		if !ok || len(ys) != len(x) {
+			return falseT
+		}
+		r := trueT
+		for i := range x {
+			r = c.And(r, m.deepEqual(x[i], ys[i], seen))
+		}
+		return r
+	case array:
+		ys, ok := y.(array)
+		if !ok || len(ys) != len(x) {
+			return falseT
+		}
+		r := trueT
+		for i := range x {
+			r = c.And(r, m.deepEqual(x[i], ys[i], seen))
+		}
+		return r
+	case []value:
+		ys, ok := y.([]value)
+		if !ok || len(ys) != len(x) || (x == nil) != (ys == nil) {
+			return falseT
+		}
+		r := trueT
+		for i := range x {
+			r = c.And(r, m.deepEqual(x[i], ys[i], seen))
+		}
+		return r
+	case iface:
+		yi, ok := y.(iface)
+		if !ok {
+			return falseT
+		}
+		if x.t == nil || yi.t == nil {
+			if x.t == nil && yi.t == nil {
+				return trueT
+			}
+			return falseT
+		}
+		if !types.Identical(x.t, yi.t) {
+			return falseT
+		}
+		return m.deepEqual(x.v, yi.v, seen)
+	case *MapV:
+		ym, ok := y.(*MapV)
+		if !ok || (x == nil) != (ym == nil) {
+			return falseT
+		}
+		if x == ym {
+			return trueT
+		}
+		panic(unsupported("vSameState over maps"))
+	case nil:
+		if y == nil {
+			return trueT
+		}
+		return falseT
+	}
+	if x == y {
+		return trueT
+	}
+	panic(unsupported(fmt.Sprintf("vSameState over %T", x)))
 }
